@@ -74,16 +74,12 @@ def flawStr : Flaw → String
 
 def fuel : Nat := 20000
 
-/-- which model answers the `tidy` op: `tidy` (the unchanged tree) or `tidyFixed` (the tree with
-notes/patches/C17-two-majors-no-default.diff applied) -/
-def fixedTwoMajors : Bool := false
-
 def handleTidy (ws : List String) : String :=
   match ws with
   | ["tidy", m, r] =>
     match parseMain m, parseMods r with
     | some main, some mods =>
-      match (if fixedTwoMajors then tidyFixed main (regOf mods) fuel else tidy main (regOf mods) fuel) with
+      match tidy main (regOf mods) fuel with
       | .ok ds => "ok " ++ showDeps ds
       | .error _ => "error"
     | _, _ => "bad-op"
